@@ -818,3 +818,144 @@ func reachesWithout(b, blk *ssa.BasicBlock) bool {
 	}
 	return false
 }
+
+// ruleCloseKeepsAcknowledged (known finding F-CLOSE-1): when the last rotation fails, Close still holds every acknowledged
+// write in the memstore; the log may not (asynchronous WAL: the records were in the writer's buffer, and a buffered writer
+// that failed once drops it), or may hold more than it should (a rejected record that could not be taken back).
+func ruleCloseKeepsAcknowledged(r *Report) {
+	const rule = "close-keeps-acknowledged"
+	r.Rule(rule, 1, "in DB.Close the write store reaches the flusher also when the final rotation fails: behind the failure of rotateWalAndFlushMemstore and before the hand-off channel is closed, the memstore is handed over (a send on storeFlushChannel, or the swap that feeds it)")
+	cl := r.NeedFunc(rule, "simpledb.DB.Close")
+	if cl == nil {
+		return
+	}
+	for _, fn := range closuresOf(cl) {
+		rot := CallsIn(fn, Keys("simpledb.DB.rotateWalAndFlushMemstore"))
+		var closes []Site
+		eachInstr(fn, func(s Site) {
+			if c, ok := s.Instr.(*ssa.Call); ok {
+				if b, ok := c.Call.Value.(*ssa.Builtin); ok && b.Name() == "close" {
+					if _, f, _, ok := loadOfField(c.Call.Args[0]); ok && f == "storeFlushChannel" {
+						closes = append(closes, s)
+					}
+				}
+			}
+		})
+		if len(rot) == 0 || len(closes) == 0 {
+			continue
+		}
+		key := rule + "/" + FuncKey(fn)
+		handed := false
+		eachInstr(fn, func(s Site) {
+			isHandOver := false
+			switch x := s.Instr.(type) {
+			case *ssa.Send:
+				if _, f, _, ok := loadOfField(x.Chan); ok && f == "storeFlushChannel" {
+					isHandOver = true
+				}
+			case *ssa.Call:
+				if sc := x.Call.StaticCallee(); sc != nil && inModule(sc) && s != rot[0] {
+					for _, g := range append([]*ssa.Function{sc}, moduleReach(r.P, []*ssa.Function{sc})...) {
+						eachInstr(g, func(t Site) {
+							if sd, ok := t.Instr.(*ssa.Send); ok {
+								if _, f, _, ok := loadOfField(sd.Chan); ok && f == "storeFlushChannel" {
+									isHandOver = true
+								}
+							}
+						})
+					}
+				}
+			}
+			if isHandOver && reachableFromSite(rot[0], s) && reachableFromSite(s, closes[0]) {
+				handed = true
+			}
+		})
+		if handed {
+			r.OK(rule, key, rot[0].Pos(), "the memstore is handed to the flusher behind a failed rotation as well")
+		} else {
+			r.Bad(rule, key, rot[0].Pos(), "when the final rotation fails, Close closes the hand-off channel without giving the memstore to the flusher: what the log does not hold is dropped although Close still has it")
+		}
+		return
+	}
+	r.Missing(rule, rule+"/simpledb.DB.Close", "the final rotation or the closing of the hand-off channel was not found in Close")
+}
+
+// remainingInputTest: fn tests the unread length of the byte source src (bytes.Buffer.Len / bytes.Reader.Len > 0) and
+// fails when something is left; returns the testing block.
+func remainingInputTest(fn *ssa.Function, src ssa.Value) *ssa.BasicBlock {
+	for _, b := range liveBlocks(fn) {
+		for _, f := range ifCmpForms(b) {
+			if f.Op != token.GTR && f.Op != token.NEQ {
+				continue
+			}
+			if z, isZ := constInt(f.Y); !isZ || z != 0 {
+				continue
+			}
+			c, ok := stripConvert(f.X).(*ssa.Call)
+			if !ok || c.Call.StaticCallee() == nil {
+				continue
+			}
+			k := FuncKey(c.Call.StaticCallee())
+			if k != "bytes.Buffer.Len" && k != "bytes.Reader.Len" {
+				continue
+			}
+			if len(c.Call.Args) == 1 && (c.Call.Args[0] == src || paramOrigin(c.Call.Args[0]) != nil && paramOrigin(c.Call.Args[0]) == paramOrigin(src)) && endsInFailingReturn(f.T) {
+				return b
+			}
+		}
+	}
+	return nil
+}
+
+// ruleLzwWholeStream: LZW has no framing — the decoder stops at the first end-of-stream code and ignores the rest.
+func ruleLzwWholeStream(r *Report, rule string) {
+	if _, done := r.RuleText[rule]; !done {
+		r.Rule(rule, 2, "the LZW decompressors return their result only after they have checked that the decoder read its whole input: LZW has no framing, bytes behind the first end-of-stream code are silently ignored otherwise")
+	}
+	o := &order{r, r.P}
+	n := 0
+	for _, fn := range r.P.FuncsOfPkg("recordio/compressor") {
+		if fn.Signature.Recv() == nil || !strings.HasPrefix(fnName(fn), "Decompress") || fn.Parent() != nil {
+			continue
+		}
+		for _, s := range CallsIn(fn, Keys("compress/lzw.NewReader")) {
+			n++
+			key := uniqKey(r, rule+"/"+FuncKey(fn)+"/whole-stream-consumed")
+			src := stripIface(s.Call().Common().Args[0])
+			if b := remainingInputTest(fn, src); b != nil {
+				dom := true
+				for _, nr := range nilReturns(fn) {
+					if !dominates(b, nr.Block) {
+						dom = false
+					}
+				}
+				if dom {
+					r.OK(rule, key, s.Pos(), "the decoder's source is tested for unread bytes before the result is returned")
+					continue
+				}
+			}
+			// through a helper that is handed the source
+			var checks []Site
+			eachInstr(fn, func(t Site) {
+				c, ok := t.Instr.(*ssa.Call)
+				if !ok || c.Call.StaticCallee() == nil || !inModule(c.Call.StaticCallee()) {
+					return
+				}
+				g := c.Call.StaticCallee()
+				for i, a := range c.Call.Args {
+					if (a == src || stripIface(a) == src) && i < len(g.Params) && remainingInputTest(g, g.Params[i]) != nil {
+						checks = append(checks, t)
+					}
+				}
+			})
+			if len(checks) == 0 {
+				r.Bad(rule, key, s.Pos(), "the LZW decoder's result is returned without a look at what it left unread: the decoder stops at the first end-of-stream code, so bytes that are not the record's stream (a record header with one flipped continuation bit that still passes its checks shifts the payload) decode to a short plausible result — both readers return 105 bytes that were never written for a 128105 byte record whose compressed length equals the CRC of the re-partitioned header")
+				continue
+			}
+			o.OnlyAfterSuccess(rule, key, fn, "the check for unread input", checks, "returning the decoded bytes", nilReturns(fn), nil)
+		}
+	}
+	if n == 0 {
+		r.Missing(rule, rule+"/lzw/whole-stream-consumed", "no LZW decoder found")
+	}
+}
